@@ -237,8 +237,11 @@ def observe(cfg, want):
             deg = sum(((idx[a_] == 0) | (idx[a_] == shape[a_] - 1)).astype(int) for a_ in range(len(shape)))
             return deg <= 1
         ids_before = id(v1)
+        t1_ids = [id(t) for t in t1]
         ret = P.solvePDE(v1, t1)
         obs["flags"]["same_object"] = bool(ret is v1 and id(ret) == ids_before)
+        # the term list handed over is the caller's: it comes back with the same objects in it
+        obs["flags"]["terms_untouched"] = bool([id(t) for t in t1] == t1_ids)
         obs["r_solve"] = lift_sol(np.asarray(v1._value), xs, "r_solve")
         # the same system through solveMatrixPDE
         vm = P.solveMatrixPDE(c.m, Mh, Rh)
